@@ -134,6 +134,11 @@ var contracts = map[string]*Contract{
 	"(*sync.RWMutex).RUnlock": {},
 	"(*sync.RWMutex).Lock":    {},
 	"(*sync.RWMutex).Unlock":  {},
+	// --- used by the thorough-tier audit of goxmldsig
+	"(*crypto/x509.Certificate).Equal":          {Det: true},
+	"(*crypto/x509.Certificate).CheckSignature": {Det: true},
+	"(" + pDsig + ".X509CertificateStore).Certificates": {Note: "user-supplied store"},
+	"(*regexp.Regexp).ReplaceAllString":         {Det: true},
 	// --- misc
 	"(error).Error": {Det: true},
 	"(*" + modPath + "/uuid.UUID).String": {Det: true},
